@@ -218,7 +218,8 @@ func rKillVal(s S, ent string) S {
 // rFilterKeys deletes the keys for which drop(tag, part1, part2) holds; keys
 // have the form tag:part1 or tag:part1|part2.
 func rFilterKeys(s S, drop func(tag, a, b string) bool) S {
-	for _, k := range s.Keys() {
+	var m map[string]string
+	for k := range s.m {
 		i := strings.IndexByte(k, ':')
 		if i < 0 {
 			continue
@@ -229,10 +230,19 @@ func rFilterKeys(s S, drop func(tag, a, b string) bool) S {
 			a, b = rest[:j], rest[j+1:]
 		}
 		if drop(tag, a, b) {
-			s = s.Del(k)
+			if m == nil {
+				m = make(map[string]string, len(s.m))
+				for x, y := range s.m {
+					m[x] = y
+				}
+			}
+			delete(m, k)
 		}
 	}
-	return s
+	if m == nil {
+		return s
+	}
+	return S{m}
 }
 
 func (ri *RInterp) info() *types.Info { return ri.F.Info() }
@@ -298,8 +308,65 @@ func (ri *RInterp) localVar(e ast.Expr) *types.Var {
 }
 
 func (ri *RInterp) at(n ast.Node) string {
-	p := ri.F.Prog.Fset.Position(n.Pos())
-	return fmt.Sprintf("%d.%d", p.Line, p.Column)
+	// the raw position: unique, and lets scope-based cleanup recognise
+	// entities created inside a loop body
+	return strconv.Itoa(int(n.Pos()))
+}
+
+// rMentionsPos reports whether str contains "@<n>" with lo <= n <= hi.
+func rMentionsPos(str string, lo, hi int) bool {
+	for i := 0; i < len(str); i++ {
+		if str[i] != '@' {
+			continue
+		}
+		j := i + 1
+		n := 0
+		for j < len(str) && str[j] >= '0' && str[j] <= '9' {
+			n = n*10 + int(str[j]-'0')
+			j++
+		}
+		if j > i+1 && n >= lo && n <= hi {
+			return true
+		}
+		i = j - 1
+	}
+	return false
+}
+
+// scopeKill forgets everything about variables declared, and entities
+// created, inside [lo, hi] (a loop body that has just been left or is about
+// to be entered again).
+func rScopeKill(s S, lo, hi int) S {
+	var m map[string]string
+	for k, v := range s.m {
+		drop := rMentionsPos(k, lo, hi)
+		if !drop && strings.HasPrefix(k, "b:") {
+			drop = false // a binding of an outer variable to an inner entity: rebind below
+		}
+		if drop {
+			if m == nil {
+				m = make(map[string]string, len(s.m))
+				for x, y := range s.m {
+					m[x] = y
+				}
+			}
+			delete(m, k)
+			continue
+		}
+		if strings.HasPrefix(k, "b:") && rMentionsPos(v, lo, hi) {
+			if m == nil {
+				m = make(map[string]string, len(s.m))
+				for x, y := range s.m {
+					m[x] = y
+				}
+			}
+			m[k] = "u:" + k[2:]
+		}
+	}
+	if m == nil {
+		return s
+	}
+	return S{m}
 }
 
 // entOf names the entity an expression of a reflect type denotes.
